@@ -1,1 +1,99 @@
-//! Harness contracts for C17.
+//! Harness contracts for C17 (DESIGN Appendix A: `MerkleLib`, `Distrib`).
+//!
+//! `MerkleLib` forwards 1:1 to `Verifier::<Sha256|Keccak256>::{verify, verify_with_index}`.
+//! `DistribSha` / `DistribKec` wire `MerkleDistributor::<H>` exactly as the module docs and the
+//! two examples do (a `#[contracttype]` leaf with an `index: u32` field implementing
+//! `IndexableLeaf`), with a settable root (`set_root` carries no authorization of its own in the
+//! library; authorization is not the subject of C17, so the harness adds none).
+
+pub mod merkle_lib {
+    use soroban_sdk::{contract, contractimpl, BytesN, Env, Vec};
+    use stellar_contract_utils::crypto::{keccak::Keccak256, merkle::Verifier, sha256::Sha256};
+
+    #[contract]
+    pub struct MerkleLib;
+
+    #[contractimpl]
+    impl MerkleLib {
+        pub fn verify_sha(e: &Env, proof: Vec<BytesN<32>>, root: BytesN<32>, leaf: BytesN<32>) -> bool {
+            Verifier::<Sha256>::verify(e, proof, root, leaf)
+        }
+        pub fn verify_kec(e: &Env, proof: Vec<BytesN<32>>, root: BytesN<32>, leaf: BytesN<32>) -> bool {
+            Verifier::<Keccak256>::verify(e, proof, root, leaf)
+        }
+        pub fn verify_idx_sha(e: &Env, proof: Vec<BytesN<32>>, root: BytesN<32>, leaf: BytesN<32>, index: u32) -> bool {
+            Verifier::<Sha256>::verify_with_index(e, proof, root, leaf, index)
+        }
+        pub fn verify_idx_kec(e: &Env, proof: Vec<BytesN<32>>, root: BytesN<32>, leaf: BytesN<32>, index: u32) -> bool {
+            Verifier::<Keccak256>::verify_with_index(e, proof, root, leaf, index)
+        }
+    }
+}
+
+/// Leaf type shared by both distributor flavours (same shape as the module-doc example and the
+/// airdrop example's `Receiver`).
+pub mod leaf {
+    use soroban_sdk::{contracttype, Address};
+    use stellar_contract_utils::merkle_distributor::IndexableLeaf;
+
+    #[contracttype]
+    #[derive(Clone, Debug)]
+    pub struct Leaf {
+        pub index: u32,
+        pub address: Address,
+        pub amount: i128,
+    }
+
+    impl IndexableLeaf for Leaf {
+        fn index(&self) -> u32 {
+            self.index
+        }
+    }
+}
+
+macro_rules! distrib_contract {
+    ($modname:ident, $name:ident, $hasher:path) => {
+        pub mod $modname {
+            use super::leaf::Leaf;
+            use soroban_sdk::{contract, contractimpl, BytesN, Env, Vec};
+            use stellar_contract_utils::merkle_distributor::MerkleDistributor;
+
+            type D = MerkleDistributor<$hasher>;
+
+            #[contract]
+            pub struct $name;
+
+            #[contractimpl]
+            impl $name {
+                pub fn set_root(e: &Env, root: BytesN<32>) {
+                    D::set_root(e, root);
+                }
+                pub fn get_root(e: &Env) -> BytesN<32> {
+                    D::get_root(e)
+                }
+                pub fn is_claimed(e: &Env, index: u32) -> bool {
+                    D::is_claimed(e, index)
+                }
+                /// `verify_and_set_claimed` (sorted-pair trees)
+                pub fn claim_sorted(e: &Env, leaf: Leaf, proof: Vec<BytesN<32>>) {
+                    D::verify_and_set_claimed(e, leaf, proof);
+                }
+                /// `verify_with_index_and_set_claimed` (positional trees)
+                pub fn claim_indexed(e: &Env, leaf: Leaf, proof: Vec<BytesN<32>>) {
+                    D::verify_with_index_and_set_claimed(e, leaf, proof);
+                }
+                /// bulk read: `is_claimed` for every listed index (one invocation)
+                pub fn dump(e: &Env, indices: Vec<u32>) -> Vec<bool> {
+                    let mut out = Vec::new(e);
+                    for i in indices.iter() {
+                        out.push_back(D::is_claimed(e, i));
+                    }
+                    out
+                }
+            }
+        }
+    };
+}
+
+distrib_contract!(distrib_sha, DistribSha, stellar_contract_utils::crypto::sha256::Sha256);
+distrib_contract!(distrib_kec, DistribKec, stellar_contract_utils::crypto::keccak::Keccak256);
